@@ -252,8 +252,9 @@ def minimise_and_write(profile, item, armed, tier, base_seed, n):
         "original_ops": len(sc["ops"]), "minimised_ops": len(small["ops"]), "shrink_executions": calls,
         "armed": sorted(armed), "digest": run.digest(),
     }
-    os.makedirs(os.path.join(VERIF, "replays"), exist_ok=True)
-    path = os.path.join(VERIF, "replays", f"{profile.prop}_{tier}_{base_seed}_{n}.json")
+    rdir = os.environ.get("RELSIM_REPLAY_DIR", os.path.join(VERIF, "replays"))
+    os.makedirs(rdir, exist_ok=True)
+    path = os.path.join(rdir, f"{profile.prop}_{tier}_{base_seed}_{n}.json")
     with open(path, "w") as f:
         json.dump(rep, f, indent=1, default=str)
     # must reproduce in a fresh interpreter
@@ -326,6 +327,8 @@ def run_check(prop, tier, base_seed, budget_s=None, max_runs=None):
 
 
 def write_evidence(profile, tier, base_seed, agg, wall_total, wall_search, nviol, armed):
+    if os.environ.get("RELSIM_NOEVIDENCE"):
+        return
     stats = agg["stats"]
     cmp_hist = {k[4:]: v for k, v in stats.items() if k.startswith("cmp:")}
     ev = {
